@@ -10,6 +10,22 @@ def desc_arg(e, i):
     return pathx.desc(e[2]["a"][i]) if i < len(e[2]["a"]) else "?"
 
 
+def timespan_parse(ctx, rule):
+    """TimeSpan::from_str: a bare number n means n * MULTIPLIER nanoseconds, anything else goes to humantime (shared with C06 / C05)"""
+    fs_ = ctx.anchor_one(rule, "TimeSpan::from_str", [f for f in ctx.facts.fns_matching(r"watchexec_cli::args::TimeSpan<.*FromStr>::from_str$")])
+    cls = [c for c in ctx.facts.children(fs_) if c.kind == "closure"]
+    unitful = [c for c in cls if pathx.desc(thir.peel(thir.root(c))).replace("^", "") == "duration::parse_duration(s)"]
+    unitless = []
+    for c in cls:
+        for cd, nd in thir.calls_in(thir.root(c)):
+            if strip_generics(cd).endswith("Duration::from_nanos"):
+                unitless.append(pathx.desc(nd["a"][0]))
+    okm = unitless in (["unitless Mul constparam"], ["constparam Mul unitless"])
+    ctx.require(len(unitful) == 1 and okm, rule, "timespan-parse", "TimeSpan parses `n` as n * MULTIPLIER ns and anything else with humantime", fs_.loc(fs_.line),
+                detail="%s / %d" % (unitless, len(unitful)), fail="TimeSpan::from_str no longer computes unit-less values as n * MULTIPLIER nanoseconds (%s)" % unitless)
+
+
+
 def run(ctx):
     ctx.level = "other"
     ctx.undecided = ("accuracy of tokio's timer and scheduler latency: 'no earlier than' and 'bounded delay' are decided as guard structure "
@@ -119,17 +135,7 @@ def run(ctx):
         fld = [f for f in (ea["variants"][0]["fields"] if ea else []) if f["name"] == "debounce"]
         ctx.require(bool(fld) and fld[0]["ty"] == "watchexec_cli::args::TimeSpan<1000000>", "R02.7", "debounce-unit", "--debounce is TimeSpan<1_000_000>: unit-less = milliseconds",
                     detail=fld[0]["ty"] if fld else "", fail="the --debounce argument no longer reads unit-less values as milliseconds (%s)" % (fld[0]["ty"] if fld else "field missing"))
-        fs_ = ctx.anchor_one("R02.7", "TimeSpan::from_str", [f for f in ctx.facts.fns_matching(r"watchexec_cli::args::TimeSpan<.*FromStr>::from_str$")])
-        cls = [c for c in ctx.facts.children(fs_) if c.kind == "closure"]
-        unitful = [c for c in cls if pathx.desc(thir.peel(thir.root(c))).replace("^", "") == "duration::parse_duration(s)"]
-        unitless = []
-        for c in cls:
-            for cd, nd in thir.calls_in(thir.root(c)):
-                if strip_generics(cd).endswith("Duration::from_nanos"):
-                    unitless.append(pathx.desc(nd["a"][0]))
-        okm = unitless in (["unitless Mul constparam"], ["constparam Mul unitless"])
-        ctx.require(len(unitful) == 1 and okm, "R02.7", "timespan-parse", "TimeSpan parses `n` as n * MULTIPLIER ns and anything else with humantime", fs_.loc(fs_.line),
-                    detail="%s / %d" % (unitless, len(unitful)), fail="TimeSpan::from_str no longer computes unit-less values as n * MULTIPLIER nanoseconds (%s)" % unitless)
+        timespan_parse(ctx, "R02.7")
         thr = []
         for f2 in ctx.facts.fns_matching(r"^watchexec_cli::config::make_config"):
             for cd, nd in thir.calls_in(thir.root(f2)):
